@@ -979,6 +979,8 @@ void *Backend::remap(void *ptr, size_t oldSize, size_t newSize, size_t alignment
         return nullptr;  // we are not single in the region
     const size_t userOffset = (uintptr_t)ptr - (uintptr_t)oldRegion;
     const size_t alignedSize = LargeObjectCache::alignToBin(newSize + userOffset);
+    if (alignedSize < newSize) // is wrapped around?
+        return nullptr;
     const size_t requestSize =
         alignUp(sizeof(MemRegion) + alignedSize + sizeof(LastFreeBlock), extMemPool->granularity);
     if (requestSize < alignedSize) // is wrapped around?
